@@ -70,8 +70,8 @@ Proof.
 Qed.
 
 (* ------------------------------------------------------------------ invoke_exception_view *)
-Theorem gen_iev_is_model b W ri site rr sec e st :
-  gen_iev (spec_params_b b) W ri site rr sec e st = iev_pm (spec_params_b b) W ri site rr sec e st.
+Theorem gen_iev_is_model b W ri oth site rr sec e st :
+  gen_iev (spec_params_b b) W ri oth site rr sec e st = iev_pm (spec_params_b b) W ri site rr sec e st.
 Proof.
   unfold gen_iev. rewrite gen_hide_attrs_is_model. rewrite ?gen_reraise_is_model.
   unfold hide_attrs_w, iev_pm, hide_attrs, prim_call_view, reraise_m, exc_request, spec_params_b, set_all,
@@ -87,9 +87,9 @@ Proof.
 Qed.
 
 (* ------------------------------------------------------------------ _error_handler, excview_tween *)
-Definition error_handler_m (P : params) (W : world) (ievf : N -> bool -> bool -> N -> state -> outcome * state)
+Definition error_handler_m (P : params) (W : world) (ievf : bool -> N -> bool -> bool -> N -> state -> outcome * state)
     (site e : N) (st : state) : outcome * state :=
-  match ievf site false true e st with
+  match ievf false site false true e st with
   | (Resp r, st') => (Resp r, st')
   | (Raise e2, st') =>
       if isa W (p_handler_catches P) e2 then (Raise (if p_handler_reraises P then e else e2), st') else (Raise e2, st')
@@ -97,7 +97,7 @@ Definition error_handler_m (P : params) (W : world) (ievf : N -> bool -> bool ->
 
 Theorem gen_error_handler_is_model b W ri site e st :
   gen_error_handler (spec_params_b b) W ri site e st
-  = error_handler_m (spec_params_b b) W (iev_pm (spec_params_b b) W ri) site e st.
+  = error_handler_m (spec_params_b b) W (fun _ => iev_pm (spec_params_b b) W ri) site e st.
 Proof.
   unfold gen_error_handler, error_handler_m. rewrite gen_iev_is_model, ?gen_reraise_is_model. unfold reraise_m.
   destruct (iev_pm (spec_params_b b) W ri site false true e st) as [[r|e2] st']; cbn; unfold cn_HTTPNotFound, cn_Exception; split_all; reflexivity.
@@ -105,7 +105,7 @@ Qed.
 
 Theorem gen_excview_tween_is_model b W ri ho st :
   gen_excview_tween (spec_params_b b) W ri site_tween ho st
-  = excview_tween_g (spec_params_b b) W (iev_pm (spec_params_b b) W ri) ho st.
+  = excview_tween_g (spec_params_b b) W (fun _ => iev_pm (spec_params_b b) W ri) ho st.
 Proof.
   unfold gen_excview_tween, excview_tween_g. destruct ho as [r|e]; [reflexivity|].
   cbn [p_tween_catches spec_params_b]. unfold cn_Exception.
@@ -127,9 +127,9 @@ Theorem run_request_gen_is_model b W ri :
 Proof.
   unfold run_request_gen, run_request_x, run_request_pm, run_request_g.
   assert (Hu : forall st, under_tween_g W ri (main_handler_pm (spec_params_b b) W ri) (gen_iev (spec_params_b b) W ri) st
-                          = under_tween_g W ri (main_handler_pm (spec_params_b b) W ri) (iev_pm (spec_params_b b) W ri) st).
-  { intros st. unfold under_tween_g. destruct (ri_under ri) as [|e|rr sec thn]; try reflexivity.
-    destruct (main_handler_pm (spec_params_b b) W ri st) as [[r|e] st1]; [reflexivity|].
+                          = under_tween_g W ri (main_handler_pm (spec_params_b b) W ri) (fun _ => iev_pm (spec_params_b b) W ri) st).
+  { intros st. unfold under_tween_g. destruct (ri_under ri) as [|e| |rr sec via thn]; try reflexivity.
+    destruct (main_handler_pm (spec_params_b b) W ri false st) as [[r|e] st1]; [reflexivity|].
     destruct (isa W cn_Exception e); [|reflexivity]. rewrite gen_iev_is_model. reflexivity. }
   rewrite Hu. destruct (under_tween_g W ri _ _ _) as [o1 st1]. rewrite gen_excview_tween_is_model. reflexivity.
 Qed.
@@ -167,7 +167,7 @@ Theorem gen_no_view_propagates b W ri e st :
   /\ forall k, In k (p_hidden (spec_params_b b)) -> aget k (st_attrs (snd r)) = aget k (st_attrs st).
 Proof.
   intros Hno F1 F2 Hnf r. subst r. rewrite gen_excview_tween_is_model.
-  assert (E : excview_tween_g (spec_params_b b) W (iev_pm (spec_params_b b) W ri) (Raise e) st
+  assert (E : excview_tween_g (spec_params_b b) W (fun _ => iev_pm (spec_params_b b) W ri) (Raise e) st
               = excview_tween (spec_params_b b) W ri (Raise e) st).
   { unfold excview_tween_g, excview_tween. destruct (isa W _ e); [|reflexivity].
     rewrite (iev_pm_eq _ _ Hno). reflexivity. }
